@@ -40,6 +40,8 @@ def run_shard(ctx):
     qmgen.drive_enumeration(ctx, OWN, bks if ctx.thorough else bks[:2] + bks[2:][:2], 4 if ctx.thorough else 3, 3)
     strat = qmgen.history(qmgen.configs(bks, pools=True, announce=True), WEIGHTS)
     qmgen.drive_histories(ctx, OWN, strat, ctx.n(1500, 25000), nontrivial)
+    qmgen.drive_histories(ctx, OWN, qmgen.restart_race_history(), ctx.n(600, 10000), nontrivial, salt=8)
+    qmgen.drive_histories(ctx, OWN, qmgen.saturated_pool_history(), ctx.n(600, 10000), nontrivial, salt=9)
 
 
 def replay(case):
